@@ -137,6 +137,8 @@ func doDump(c *Ctx, what string) {
 				}
 			}
 		}
+	case "fp":
+		dumpFP(c, os.Getenv("LINTS"))
 	case "loops":
 		dumpLoops(c)
 	case "mapranges":
@@ -219,4 +221,54 @@ func dumpLoops(c *Ctx) {
 		}
 	}
 	fmt.Println("loops with early exits:", total, "multi-verdict:", multi)
+}
+
+func dumpFP(c *Ctx, names string) {
+	cs := BuildCensus(c)
+	by := map[string]*Reg{}
+	for _, r := range cs.Regs {
+		if r.NameOK {
+			by[r.Name] = r
+		}
+	}
+	parts := strings.Split(names, ",")
+	var fps [][]string
+	for _, n := range parts {
+		reg := by[n]
+		if reg == nil {
+			fmt.Println("no lint", n)
+			return
+		}
+		var lines []string
+		for _, l := range fingerprintOf(reg.CheckApplies).Lines() {
+			lines = append(lines, "A: "+l)
+		}
+		for _, l := range fingerprintOf(reg.Execute).Lines() {
+			lines = append(lines, "E: "+l)
+		}
+		fps = append(fps, lines)
+	}
+	if len(fps) == 2 {
+		a, b := map[string]bool{}, map[string]bool{}
+		for _, l := range fps[0] {
+			a[l] = true
+		}
+		for _, l := range fps[1] {
+			b[l] = true
+		}
+		for _, l := range fps[0] {
+			if !b[l] {
+				fmt.Println("  - " + l)
+			}
+		}
+		for _, l := range fps[1] {
+			if !a[l] {
+				fmt.Println("  + " + l)
+			}
+		}
+	} else {
+		for _, l := range fps[0] {
+			fmt.Println(l)
+		}
+	}
 }
